@@ -3,6 +3,7 @@ package main
 import (
 	"encoding/json"
 	"fmt"
+	"os"
 	"sort"
 	"strings"
 
@@ -29,6 +30,7 @@ type rtCase struct {
 	Additional map[string][]string `json:"additional"` // file -> node names
 	Level      map[string]string   `json:"level"`      // fid -> level (default violation)
 	RangeStyle int                 `json:"rangeStyle"`
+	CtxRef     int                 `json:"ctxRef"`          // 0: absolute ids; 1, 2: ids through a context document named by reference
 	Stripped   bool                `json:"compareStripped"` // also validate the same graph without source maps
 	Messages   map[string]any      `json:"messages"`        // fid -> message value written in the profile (any YAML value)
 }
@@ -135,6 +137,8 @@ func withSourceMaps(graph []any, c rtCase) []any {
 	return graph
 }
 
+var rtCtxFile string
+
 func kindOf(types any) string {
 	arr, _ := types.([]any)
 	for _, t := range arr {
@@ -230,6 +234,34 @@ func runReportTree(c rtCase) (o rtObs) {
 	}
 	graph = withSourceMaps(graph, c)
 	data, _ := json.Marshal(graph)
+	if c.CtxRef > 0 {
+		// node ids written as compact IRIs through a context kept in a separate document, named by reference; that
+		// document sits at one location for the whole process and is rewritten for every case (two namespaces in
+		// turn), so it has to be read when it is used
+		base := nodeNS
+		if c.CtxRef == 2 {
+			base = "http://example.org/m/"
+		}
+		text := strings.ReplaceAll(string(data), nodeNS, base)
+		text = strings.ReplaceAll(text, `"@id":"`+base, `"@id":"nd:`)
+		if rtCtxFile == "" {
+			f, err := os.CreateTemp("", "acvh-rtcontext-*.jsonld")
+			if err != nil {
+				panic(err)
+			}
+			rtCtxFile = f.Name()
+			f.Close()
+		}
+		cb, _ := json.Marshal(map[string]any{"@context": map[string]any{"nd": base}})
+		if err := os.WriteFile(rtCtxFile, cb, 0644); err != nil {
+			panic(err)
+		}
+		pb, _ := json.Marshal(rtCtxFile)
+		data = []byte(`{"@context":` + string(pb) + `,"@graph":` + text + `}`)
+		for i := range o.GraphIDs {
+			o.GraphIDs[i] = base + strings.TrimPrefix(o.GraphIDs[i], nodeNS)
+		}
+	}
 	logicMessages = c.Messages
 	prof := renderLogicProfileLevels(c.Formulas, c.Kinds, c.Spell, c.Level)
 	logicMessages = nil
